@@ -72,6 +72,8 @@ pub fn replay(prop: &str, case: &str) -> i32 {
                 1
             }
         }
+        "C15" | "C20" => crate::multirun::replay(prop, &parts, crate::CFG_B),
+        "C11" | "C12" | "C13" | "C14" | "C16" | "C17" | "C18" => crate::buildchecks::replay(prop, &parts),
         _ => {
             println!("replay: unknown property {prop}");
             2
